@@ -70,6 +70,21 @@ theorem file_count_le_max (now maxSize maxFiles : Nat) (h : 0 < maxFiles) (hist 
     (by simp only [Writer.new, Writer.roll, List.length_nil, List.drop_nil, List.nil_append, List.length_singleton]; omega)
   exact this.1
 
+/-- **with restarts**: for every history of writes and restarts of the writer on the same directory
+    (`Writer.reopen`: other limits, any later clock reading, whatever the directory already holds — also
+    more files than the new limit), after every event the number of files is at most the limit of the
+    writer in force.  (`removeDeprecatedFiles` removes `len - max + 1` files, not one.) -/
+theorem file_count_le_max_events (now maxSize maxFiles : Nat) (h : 0 < maxFiles) (evs : List Ev) (hl : LimitsPos evs) :
+    (runEvents (Writer.new now maxSize maxFiles) evs).files.length
+      ≤ (runEvents (Writer.new now maxSize maxFiles) evs).maxFiles :=
+  (fileCount_runEvents (Writer.new now maxSize maxFiles) evs h
+    (by simp only [Writer.new, Writer.roll, List.length_nil, List.drop_nil, List.nil_append, List.length_singleton]; omega) hl).1
+
+/-- the case of the seeded change C17-r2-3: six files on disk, restart with limit 2 -/
+example : (runEvents (Writer.new 1000 1 6)
+      ((List.range 9).map (fun i => Ev.write (2000 + i * 1000) [⟨0, [97], 1, 0, 0, 0, 5, 0, 0, 0⟩]) ++ [Ev.reopen 60000 1 2])).files.length = 2 := by
+  decide
+
 /-! ## 4. L2: a data file cut at an arbitrary byte -/
 
 /-- **prefix lemma**: the lines read from a file cut at byte `k` are the complete lines before the
@@ -169,6 +184,29 @@ theorem find_fresh_partial (fs : Dir) (b e : Nat) (res : Bytes)
 def Covered (fs : Dir) (b : Nat) : Prop :=
   ∀ x ∈ retained fs, b / 1000 ≤ x.ts / 1000 → ∃ e ∈ allEnts fs, e.1 = x.ts / 1000
 
+/-- the common core: a writer state satisfying the invariant bundle `Inv` (Lemmas) -/
+theorem search_of_inv (w : Writer) (hinv : Inv w w.latestOpSec) (hlines : LinesValid w) (hlat : w.latestOpSec < 2 ^ 64)
+    (b e : Nat) (res : Bytes) (hsize : ∀ f ∈ w.files, f.data.length < 2 ^ 64) (hcov : Covered w.files b) :
+    (find w.files {} b e res).2 = specFind (retained w.files) b e res := by
+  refine find_fresh_partial _ b e res ?_ hinv.ord.2.1 (indexCorrect_of_inv _ hinv.ents hinv.sorted _ hcov)
+  intro f hf
+  refine ⟨hinv.ok f hf, ?_, hlines f hf⟩
+  intro en hen
+  obtain ⟨pre, rest, hsplit⟩ := List.append_of_mem hf
+  have hen' : en ∈ allEnts w.files := by
+    rw [hsplit, allEnts_append, allEnts_cons]; simp [hen]
+  refine ⟨lt_of_le_of_lt (hinv.bound en hen') hlat, ?_⟩
+  obtain ⟨j, _, hoff, _, _⟩ := EntsOK_split [] pre f rest (hsplit ▸ hinv.ents) en hen
+  have h1 := serialise_take_length_le f.lines j
+  have h2 := hsize f hf
+  rw [(hinv.ok f hf).1] at h2
+  omega
+
+theorem new_linesValid (now a b : Nat) : LinesValid (Writer.new now a b) := by
+  intro f hf
+  simp only [Writer.new, Writer.roll, List.length_nil, List.drop_nil, List.nil_append, List.mem_singleton] at hf
+  subst hf; simp
+
 /-- **search_complete_sorted_nodup, partial, end to end**: for every creation time, every size / count
     limit, every accepted write history (any number of size rolls, day rolls and removals) a *fresh*
     searcher's `FindByTimeAndResource` returns exactly the retained items in range with the resource,
@@ -181,23 +219,23 @@ theorem search_complete_partial (now maxSize maxFiles : Nat) (hnow : now / 1000 
     (find (runWrites (Writer.new now maxSize maxFiles) hist).files {} b e res).2
       = specFind (retained (runWrites (Writer.new now maxSize maxFiles) hist).files) b e res := by
   have hinv := inv_runWrites _ hist (inv_new now maxSize maxFiles)
-  have hside := runWrites_side (Writer.new now maxSize maxFiles) hist hv
-    (by intro f hf; simp only [Writer.new, Writer.roll, List.length_nil, List.drop_nil, List.nil_append,
-          List.mem_singleton] at hf; subst hf; simp)
+  have hside := runWrites_side (Writer.new now maxSize maxFiles) hist hv (new_linesValid now maxSize maxFiles)
     (by simpa [Writer.new] using hnow)
-  refine find_fresh_partial _ b e res ?_ hinv.ord.2.1 (indexCorrect_of_inv _ hinv.ents hinv.sorted _ hcov)
-  intro f hf
-  refine ⟨hinv.ok f hf, ?_, hside.1 f hf⟩
-  intro en hen
-  obtain ⟨pre, rest, hsplit⟩ := List.append_of_mem hf
-  have hen' : en ∈ allEnts (runWrites (Writer.new now maxSize maxFiles) hist).files := by
-    rw [hsplit, allEnts_append, allEnts_cons]; simp [hen]
-  refine ⟨lt_of_le_of_lt (hinv.bound en hen') hside.2, ?_⟩
-  obtain ⟨j, _, hoff, _, _⟩ := EntsOK_split [] pre f rest (hsplit ▸ hinv.ents) en hen
-  have h1 := serialise_take_length_le f.lines j
-  have h2 := hsize f hf
-  rw [(hinv.ok f hf).1] at h2
-  omega
+  exact search_of_inv _ hinv hside.1 hside.2 b e res hsize hcov
+
+/-- **… with restarts**: the same for every accepted history of writes *and restarts of the writer* on the
+    same directory (`EvsOK`: valid `Write` arguments; a restart's clock reading is not before the last
+    second written).  The items of a restarted writer's creation second have no index entry either, so
+    `Covered` excludes them exactly like those of the first writer. -/
+theorem search_complete_partial_events (now maxSize maxFiles : Nat) (hnow : now / 1000 < 2 ^ 64)
+    (evs : List Ev) (hok : EvsOK (Writer.new now maxSize maxFiles) evs) (b e : Nat) (res : Bytes)
+    (hsize : ∀ f ∈ (runEvents (Writer.new now maxSize maxFiles) evs).files, f.data.length < 2 ^ 64)
+    (hcov : Covered (runEvents (Writer.new now maxSize maxFiles) evs).files b) :
+    (find (runEvents (Writer.new now maxSize maxFiles) evs).files {} b e res).2
+      = specFind (retained (runEvents (Writer.new now maxSize maxFiles) evs).files) b e res := by
+  have h := runEvents_inv (Writer.new now maxSize maxFiles) evs hok (inv_new now maxSize maxFiles)
+    (new_linesValid now maxSize maxFiles) (by simpa [Writer.new] using hnow)
+  exact search_of_inv _ h.1 h.2.1 h.2.2 b e res hsize hcov
 
 /-- the hypothesis `Covered` is satisfiable with a non-empty answer (second 2 of `dirFirst` below) -/
 example : Covered
